@@ -18,9 +18,14 @@ RULE = ("each case = one synthetic in-memory dataset (1-3 instruments, 1-12 / 13
         "`lseen b n= items= R= order= dups= skipped= last= h=` (stream events / Items / markers processed, `ok` or the first index at which the processed stream differs from the dataset, Items behind the dataset cursor or surplus markers, "
         "positions jumped over or never reached, last position reached, rolling hash of the CONTENT - id, instrument, price, side, exchange time - of everything processed), `linst b j n= h= px=` (per instrument: Items, hash of their ids, last price), "
         "`lreqs b ...` (the requests, with the prices read: an event fed twice or dropped shifts the Item count and with it every later request), `own`, `alone` as before. "
+        "INPUT-DOMAIN families (own PRNG stream; hand cases in corpus/C20/dom_inputs.ops): cases x<n> (one per 5 random cases) = small datasets whose Items are of EVERY DataKind (`i:p:K`: trade buy / sell / amount 0, "
+        "OrderBookL1, order book snapshot / update, candle, liquidation - all carry the dataset position and a price), exchange times 0 / negative (before the engine start and the initial balance time) / all equal / decreasing "
+        "together with TRADING plans, plan quantities that fit the balances exactly or exceed them by one (sell 99 / 100 / 101 of base 100; buy 2000 / 2001 @ 50, 1000 / 1001 @ 100, 1960 / 1961 @ 51 of quote 100000), every eighth case an "
+        "EMPTY dataset (MarketDataInMemory::new panics: `panic`), every eighth a `run 0 w`; cases LX<c>_<n> (2 quick / 12 thorough, n in {3,257,2049,4097}) = longdata with ONE instrument, tm = 0 (one exchange time for the whole "
+        "dataset), pm = 1 (one price per instrument), every other element a marker (rp = 2, marker first / Item first) and rp = 1 (markers only: `panic`). "
         "A case is distinct by the SHA-1 of its op lines and non-trivial when the observation blocks differ")
 ASSUMPTIONS = [
-    "MarketDataInMemory datasets of trade Items and Reconnecting markers with at least one Item (MarketDataInMemory::new panics otherwise; harness, model and spec all report `panic`); one mock exchange, zero fees, latency_ms = 0",
+    "MarketDataInMemory datasets of Items (any DataKind; the random and long families use trades only) and Reconnecting markers with at least one Item (MarketDataInMemory::new panics otherwise - empty and marker-only datasets; harness, model and spec all report `panic`); one mock exchange, zero fees, latency_ms = 0 (fees incl. rebates and latencies are C20E's inputs); initial balances fixed (base 100, quote 100000: Model/Backtest.initBals), no initial position; integer prices and quantities",
     "trading enabled from the start and never disabled; no Command / TradingStateUpdate is sent during a backtest",
     "the engine state handed to the backtests already carries the exchange's initial balances (as in the repo's example config), so the initial account snapshot is idempotent",
     "the engine is an arbitrary deterministic function of its state and event (strategy, risk manager, recorders included); a strategy with interior randomness or wall-clock reads is outside the model",
